@@ -80,6 +80,15 @@ def check_strings(case):
                     bad("matrices-nophase", f"Stabilizer((R,S)).to_list() = {list(st4.to_list())}, expected {full}")
         except Exception as e:  # noqa: BLE001
             bad("matrices-raised", f"matrix constructor raised {type(e).__name__}: {e}")
+    # X and Z matrices (and signs) of DIFFERENT element types in one call, e.g. an int8 identity next to a float adjacency matrix
+    for (dr, ds, dp) in ((np.int8, np.float64, np.int64), (np.float64, np.int8, np.int8), (np.int64, np.bool_, np.uint8), (np.bool_, np.int8, np.bool_),
+                         (np.int8, np.int32, np.float64)):
+        try:
+            st5 = L.Stabilizer((Rw.astype(dr), Sw.astype(ds), pw.astype(dp)))
+            if list(st5.to_list()) != full:
+                bad("matrices-mixed-dtypes", f"Stabilizer((R:{np.dtype(dr).name}, S:{np.dtype(ds).name}, phases:{np.dtype(dp).name})).to_list() = {list(st5.to_list())}, expected {full}")
+        except Exception as e:  # noqa: BLE001
+            bad("matrices-mixed-dtypes-raised", f"matrix constructor / export raised {type(e).__name__}: {e} for R:{np.dtype(dr).name}, S:{np.dtype(ds).name}, phases:{np.dtype(dp).name}")
     if not np.array_equal(Rw, libif.paulis_to_matrices(gens, n)[0]):
         bad("input-mutated", "input matrices modified")
     return fails
